@@ -1,5 +1,7 @@
 mod c01;
+mod c04;
 mod c05;
+mod c19;
 mod common;
 mod json;
 mod model;
@@ -56,7 +58,9 @@ fn main() {
     let t0 = std::time::Instant::now();
     let (rep, rule, required): (Report, &str, &[&str]) = match cfg.prop.as_str() {
         "C01" => (c01::run(&cfg), c01::RULE, c01::REQUIRED),
+        "C04" => (c04::run(&cfg), c04::RULE, c04::REQUIRED),
         "C05" => (c05::run(&cfg), c05::RULE, c05::REQUIRED),
+        "C19" => (c19::run(&cfg), c19::RULE, c19::REQUIRED),
         _ => usage(),
     };
     let notes = json::J::obj().set("harness_wall_s", json::J::f(t0.elapsed().as_secs_f64()));
